@@ -166,3 +166,27 @@ GARBAGE = list("{}\",=\n@\\ \t\r#%") + ["@a{", "@comment{", "@string{", "@preamb
 
 def garbage(rnd: random.Random, n: int, maxlen: int = 40) -> List[str]:
     return ["".join(rnd.choice(GARBAGE) for _ in range(rnd.randint(0, maxlen))) for _ in range(n)]
+
+
+UNI = ["\x0b", "\x0c", "\x1c", "\x1d", "\x1e", "\x1f", "\x85", "\u2028", "\u2029", "\u00a0", "\u3000", "\ufeff", "\u200b", "\u0301", "\u0130",
+       "\u00df", "\u01c5", "\U0001f600", "\U00010400", "\uff20", "\uff5b", "\uff41", "\u0660", "\u00b2", "\u212a", "\ud7ff", "\x00", "\x7f"]
+
+
+def ugarbage(rnd: random.Random, n: int, maxlen: int = 40) -> List[str]:
+    """arbitrary Unicode (no lone surrogates) mixed with the mark characters: separators that str.isspace / splitlines
+    know but the scanner does not, combining marks, astral characters, full-width look-alikes of @ and {"""
+    out = []
+    for _ in range(n):
+        k = rnd.randint(0, maxlen)
+        chars = []
+        for _ in range(k):
+            r = rnd.random()
+            if r < 0.45:
+                chars.append(rnd.choice(GARBAGE))
+            elif r < 0.8:
+                chars.append(rnd.choice(UNI))
+            else:
+                cp = rnd.randint(0x20, 0x2FFFF)
+                chars.append(chr(cp) if not 0xD800 <= cp <= 0xDFFF else "?")
+        out.append("".join(chars))
+    return out
